@@ -382,8 +382,11 @@ class Check:
             cov["notes"] = self.notes
         ev = {"property_id": self.prop, "tier": self.tier, "seed": self.seed, "level": "proof", "coverage": cov,
               "assumptions": self.assumptions, "wall_s": round(wall, 2), "violations": len(self.violations)}
-        os.makedirs(os.path.join(VERIF, "evidence"), exist_ok=True)
-        with open(os.path.join(VERIF, "evidence", "%s.json" % self.prop), "w") as f:
+        # evidence describes the tree the registered commands run on (/repo); a run against another tree (VERIF_REPO=..., used to try
+        # seeded changes) must not overwrite it
+        evdir = os.path.join(VERIF, "evidence") if os.path.realpath(REPO) == "/repo" else os.environ.get("VERIF_EVIDENCE_DIR", "/tmp/verif_evidence_other")
+        os.makedirs(evdir, exist_ok=True)
+        with open(os.path.join(evdir, "%s.json" % self.prop), "w") as f:
             json.dump(ev, f, indent=1, default=str)
         for fid, (w, c) in sorted(self.known_hits.items()):
             print("KNOWN-FINDING: property=%s %s %s" % (self.prop, fid, w))
